@@ -119,17 +119,20 @@ package tcplistener
 //@   ghostset lastpeek := lastpeek
 // (set-up helpers: trusted, they only build objects)
 //@ func (listener *tcpLineListener) createConnectionReader(connLogger logger.Logger, conn *net.TCPConn) *util.NetConnWrapper
-//@   trusted
-//@   modifies nothing
+//@   requires conn != nil
+//@   modifies tcpLastReadBufferSize, conn.*
 //@   ensures result != nil
 //@ func (listener *tcpLineListener) launchConnectionCloser(connLogger logger.Logger, conn *net.TCPConn) *channels.SignalAwaitable
-//@   trusted
+//@   requires listener != nil
 //@   modifies nothing
 //@   ensures result != nil
+// the constructor establishes the reader's representation invariant (every method above assumes it): room for three
+// records of the soft limit, empty, callbacks in place
 //@ func newMultiLineReader(read ioReader, test headTester, minBufferSize, softRecordLimit int, consume recordConsumer) *multiLineReader
-//@   trusted
+//@   requires read != nil && test != nil && consume != nil && 0 < softRecordLimit && softRecordLimit <= 1073741824 && minBufferSize <= 4294967296
 //@   modifies nothing
-//@   ensures result != nil
+//@   ensures[new-reader-satisfies-its-invariant] result != nil && isfresh(result) && mlrok(result)
+//@   ensures[new-reader-is-empty] result.offsetAppend == 0 && result.offsetSearch == 0 && result.softRecordLimit == softRecordLimit && len(result.buffer) >= minBufferSize
 // The socket is closed by the closer goroutine alone, on the stop request or when the connection task signals it: a task that
 // ends for any other reason than a close caused by the stop request must signal it, or socket and goroutine stay behind (C07:
 // at the descriptor limit the listener stops accepting). lastpeek: ghost - the last answer of stopRequest.Peek().
@@ -143,6 +146,7 @@ package tcplistener
 //@   define   !lastpeek
 //@   modifies everything
 //@   ensures[C07:connection-is-released-unless-closed-by-the-stop-request] ncalls("channels.SignalAwaitable.Signal") == old(ncalls("channels.SignalAwaitable.Signal")) + 1 || lastpeek
+//@   before tcplistener.newMultiLineReader: assert[reader-is-built-with-valid-limits] 0 < arg3 && arg3 <= 1073741824 && arg2 <= 4294967296
 //@   loop 1: step[the-deadline-that-caused-a-flush-is-remembered] readErr == nil && ncalls("tcplistener.multiLineReader.Flush") > prev(ncalls("tcplistener.multiLineReader.Flush")) ==> instant(prevDeadline) == instant(connReader.readDeadline)
 //@   ensures[final-flush-all-then-sink-flush] ncalls("tcplistener.multiLineReader.FlushAll") == old(ncalls("tcplistener.multiLineReader.FlushAll")) + 1 && lastsinkflush > old(fevent)
 //@   loop 1: invariant ncalls("tcplistener.multiLineReader.FlushAll") == old(ncalls("tcplistener.multiLineReader.FlushAll")) && fevent >= old(fevent)
